@@ -320,7 +320,11 @@ def leanchecker(modules):
 
 def run_pipe(harness_cmd, driver_cmd, keep=None, timeout=None):
     """harness | driver ; returns (driver stdout lines, harness rc, driver rc, harness stderr tail)"""
-    h = subprocess.Popen(harness_cmd, stdout=subprocess.PIPE, stderr=subprocess.PIPE)
+    # glibc poisons freed (and fresh) heap memory: a use-after-free in gatery that would otherwise read stale but intact data
+    # (e.g. an iterator into a node vector that reallocated) yields garbage and crashes instead of passing silently
+    henv = dict(os.environ)
+    henv.setdefault("MALLOC_PERTURB_", "165")
+    h = subprocess.Popen(harness_cmd, stdout=subprocess.PIPE, stderr=subprocess.PIPE, env=henv)
     if keep:
         tee = subprocess.Popen(["tee", keep], stdin=h.stdout, stdout=subprocess.PIPE)
         src = tee.stdout
